@@ -358,6 +358,35 @@ class DB:
         pref = fn.name + "::{closure#"
         return [f for f in self.by_crate[fn.crate] if f.name.startswith(pref)]
 
+    def const_uses(self, crates=None):
+        """const def path -> list of (fn, block, context) where context is ('bin', op, line) | ('call', callee, line) | ('other', kind, line)"""
+        key = ("cu", tuple(crates) if crates else None)
+        if not hasattr(self, "_cu"):
+            self._cu = {}
+        if key in self._cu:
+            return self._cu[key]
+        uses = defaultdict(list)
+        src = self.fns.values() if not crates else [f for c in crates for f in self.by_crate[c]]
+        for f in src:
+            for bi, b in enumerate(f.blocks):
+                for s in b["s"]:
+                    if s[0] != "a":
+                        continue
+                    rv = s[2]
+                    for op in rvalue_operands(rv):
+                        if "def" in op:
+                            ctx = ("bin", rv[1], s[3]) if rv[0] == "bin" else ("other", rv[0], s[3])
+                            uses[op["def"]].append((f, bi, ctx))
+                t = b["t"]
+                if t[0] == "call":
+                    for a in t[2]:
+                        if "def" in a:
+                            uses[a["def"]].append((f, bi, ("call", t[1].get("res") or t[1].get("path", ""), t[6])))
+                elif t[0] == "switch" and "def" in t[1]:
+                    uses[t[1]["def"]].append((f, bi, ("other", "switch", t[-1] if isinstance(t[-1], int) else 0)))
+        self._cu[key] = uses
+        return uses
+
     # ---- call graph -----------------------------------------------------------------------
     def edges(self, fn):
         """set of callee names (workspace keys or external paths) that fn may invoke"""
